@@ -5,11 +5,18 @@ EXPLANATION = """
 Claimed narrowly. Decides guard shapes; does NOT decide the 'if and only if' (a later qualifying partner when the nearest fails WHERE) nor independence from storage placement.
 a) match_followed_by: a pair is pushed only under Ge(ts_b, ts_a) and only on the true edge of matches_where_clause; match_preceded_by: only under Lt(ts_b, ts_a) and matches_where_clause == true;
    ts_a / ts_b are the timestamps of the head row and the partner row respectively; the WHERE check receives (a-row, b-row) in that order.
+   a3: EVERY decision that compares an a-timestamp with a b-timestamp in either matcher - in the function or in a closure it passes to a search helper
+   (partition_point, position, take_while ...) - tests the one boundary both link kinds share, {ts_b < ts_a | ts_b >= ts_a}; a comparison that lumps 'equal' with 'earlier'
+   (Le(ts_b,ts_a), Gt(ts_b,ts_a) and their mirrored forms) moves a same-time partner to the wrong side whichever way the result is used. Comparisons that are only logged are ignored.
 b) match_in_group routes FollowedBy -> match_followed_by and PrecededBy -> match_preceded_by (link table).
+d) transform_where_clause_for_event_type (used by the per-type sub-query push-down AND by the matcher's WHERE evaluator) addresses a leaf to an event type only through
+   parse_event_field: the field name of every Compare / In it builds comes either from the part after the first '.' returned by parse_event_field - and then only under
+   `event_type_part == target_event_type` (whole-string equality; prefix / substring tests address `order_paid.x` to `order`) - or is the original, unqualified field.
+   Followed through same-module helpers and Option::map-style closures, so extracting the leaf rewrite into a helper is not reported.
 c) match_sequences tests `all_matches.len() >= limit` before processing a group and truncates after extending (LIMIT bounds the number of matched sequences).
 """
-FLOOR = 4
-REQUIRED = ["C15.a1", "C15.a2", "C15.b", "C15.c"]
+FLOOR = 6
+REQUIRED = ["C15.a1", "C15.a2", "C15.a3", "C15.b", "C15.c", "C15.d"]
 
 
 def run(ctx):
@@ -78,6 +85,102 @@ def run(ctx):
     ctx.run("C15.a1", "K8 GUARD + K1", "SequenceMatcher::match_followed_by", "FOLLOWED BY: partner at the same time or later, both sides pass WHERE", pair("SequenceMatcher::match_followed_by", "Ge"))
     ctx.run("C15.a2", "K8 GUARD + K1", "SequenceMatcher::match_preceded_by", "PRECEDED BY: partner strictly earlier, both sides pass WHERE", pair("SequenceMatcher::match_preceded_by", "Lt"))
 
+    def a3(inst):
+        bad = []
+        flip = {"Ge": "Le", "Le": "Ge", "Gt": "Lt", "Lt": "Gt"}
+        n_cmp = 0
+        for name in ("SequenceMatcher::match_followed_by", "SequenceMatcher::match_preceded_by"):
+            P = F.fn(name)
+            gts = calls(P, r"SequenceMatcher::get_timestamp$", 2)
+
+            def side_of_parent(op):
+                d = deep_locals(P, op, wide=True) | wide_all(P, op)
+                return {s_ for s_, l in (("a", 3), ("b", 4)) if l in d}
+
+            def ts_side_parent(op, seen=None):
+                """'a' / 'b' when the operand is (derived from) get_timestamp(zones_<side>, row_<side>) in the parent"""
+                out = set()
+                for l in P.origins(op):
+                    if l[0] == "call" and "get_timestamp" in l[1]:
+                        c = P.call_at(l[2])
+                        s_ = side_of_parent(c.args[1]) & side_of_parent(c.args[2])
+                        out |= s_ if len(s_) == 1 else {"?"}
+                return out
+            # closures created in the parent: upvar name -> parent operand
+            clos = []
+            for i, blk in enumerate(P.blocks):
+                for st in blk["s"]:
+                    v = st.get("v")
+                    if v and v.get("r") == "agg" and v.get("ak") == "closure":
+                        ck = v.get("def")
+                        clos.append((ck, v))
+            bodies = [(P, None)]
+            for ck, v in clos:
+                if not ck or not F.has(ck):
+                    continue
+                C = F.fn_exact(ck)
+                ups = C.rec.get("upvars") or []
+                env = {}
+                for idx, u in enumerate(ups):
+                    nm = u if isinstance(u, str) else (u.get("n") if isinstance(u, dict) else None)
+                    if nm is not None and idx < len(v["o"]):
+                        env[nm] = v["o"][idx]
+                bodies.append((C, env))
+
+            def ts_side(B, env, op):
+                if env is None:
+                    return ts_side_parent(op)
+                out = set()
+                for l in B.origins(op):
+                    if l[0] == "call" and "get_timestamp" in l[1]:
+                        c = B.call_at(l[2])
+                        ss = []
+                        for a_ in (c.args[1], c.args[2]):
+                            s_ = set()
+                            for l2 in B.origins(a_):
+                                if l2[0] == "upvar" and l2[1] in env:
+                                    s_ |= side_of_parent(env[l2[1]])
+                            ss.append(s_)
+                        known = [x for x in ss if x]
+                        s_ = set.intersection(*known) if known else set()
+                        out |= s_ if len(s_) == 1 else {"?"}
+                    elif l[0] == "upvar" and l[1] in env:
+                        out |= ts_side_parent(env[l[1]])
+                return out
+            for B, env in bodies:
+                decided = set()
+                for i in B.live_blocks():
+                    if B.blocks[i]["t"]["t"] == "switch":
+                        si = B.switch_info(i)
+                        if si and si["kind"] == "bool" and si.get("def") is not None:
+                            decided.add(id(si["def"]))
+                for i in sorted(B.live_blocks()):
+                    for st in B.blocks[i]["s"]:
+                        v = st.get("v")
+                        if not v or v.get("r") != "bin" or v.get("op") not in flip:
+                            continue
+                        is_ret = env is not None and st["a"] == [0]
+                        if id(v) not in decided and not is_ret:
+                            continue
+                        sa, sb = ts_side(B, env, v["a"]), ts_side(B, env, v["b"])
+                        if not sa or not sb:
+                            continue
+                        n_cmp += 1
+                        where = "%s @ %s" % (B.key.split("::")[-1] if env is not None else name.split("::")[-1], sp(B, i))
+                        if "?" in sa | sb or len(sa) != 1 or len(sb) != 1 or sa == sb:
+                            if sa == sb and len(sa) == 1:
+                                continue  # b-vs-b / a-vs-a ordering, not a pairing decision
+                            bad.append(("ts-cmp-unresolved:%s" % name.split("::")[-1], "cannot attribute the sides of a timestamp comparison at %s (%s vs %s)" % (where, sorted(sa), sorted(sb)), None))
+                            continue
+                        o = v["op"] if (list(sa)[0], list(sb)[0]) == ("b", "a") else flip[v["op"]]
+                        inst.sites.append("%s: %s(ts_b, ts_a)" % (where, o))
+                        if o not in ("Lt", "Ge"):
+                            bad.append(("ts-boundary:%s:%s" % (name.split("::")[-1], o), "%s decides on %s(ts_b, ts_a): a partner at exactly the same time falls on the wrong side (both link kinds split at ts_b < ts_a | ts_b >= ts_a)" % (where, o), None))
+        if n_cmp < 3:
+            raise AnchorMissing("a/b timestamp decisions in the matchers (found %d, confirmed 3)" % n_cmp)
+        return bad
+    ctx.run("C15.a3", "K8 GUARD", "SequenceMatcher::match_{followed,preceded}_by (+closures)", "every a-vs-b time decision splits at ts_b < ts_a | ts_b >= ts_a", a3)
+
     def b_(inst):
         b = F.fn("SequenceMatcher::match_in_group")
         sw = [(i, b.switch_info(i)) for i in sorted(b.live_blocks()) if b.blocks[i]["t"]["t"] == "switch"]
@@ -138,3 +241,101 @@ def run(ctx):
                 bad.append(("limit-precheck", "a group is matched although the limit was already reached", None))
         return bad
     ctx.run("C15.c", "K1 DOM", "SequenceMatcher::match_sequences", "LIMIT bounds the number of matched sequences", c)
+
+    def d(inst):
+        T = F.fn("sequence::utils::transform_where_clause_for_event_type")
+        mod = T.key.rsplit("::", 1)[0]
+        # family: T, same-module functions it (transitively) calls, and the closures of all of them
+        fam, todo = [], [T.key]
+        while todo:
+            k = todo.pop()
+            if k in fam or not F.has(k):
+                continue
+            fam.append(k)
+            B = F.fn_exact(k)
+            for c in B.calls:
+                if c.cleanup:
+                    continue
+                nn = c.nname
+                if c.local and F.has(nn) and nn.rsplit("::", 1)[0] == mod:
+                    todo.append(nn)
+            for blk in B.blocks:
+                for st in blk["s"]:
+                    v = st.get("v")
+                    if v and v.get("r") == "agg" and v.get("ak") == "closure" and v.get("def"):
+                        todo.append(v["def"])
+        bad, n_leaf, n_pef = [], 0, 0
+        for k in fam:
+            B = F.fn_exact(k)
+            short = k[len(mod) + 2:]
+            # (1) provenance of the field of every rewritten leaf
+            for i in sorted(B.live_blocks()):
+                for st in B.blocks[i]["s"]:
+                    v = st.get("v")
+                    if not v or v.get("r") != "agg" or v.get("ak") != "adt" or not str(v.get("adt", "")).endswith("types::Expr") or v.get("var") not in ("Compare", "In"):
+                        continue
+                    n_leaf += 1
+                    fi = v["fields"].index("field")
+                    L = deep_origins(F, B, v["o"][fi], stop=r"utils::parse_event_field$")
+                    why = []
+                    for l in L:
+                        if l[0] == "call" and norm_path(l[1]).endswith("utils::parse_event_field"):
+                            pr = [p_ for p_ in l[3] if p_ != "*"]
+                            if ".1" not in pr:
+                                why.append("the event-type part of parse_event_field")
+                        elif l[0] == "param" and (l[2] and l[2][-1] == ".field" or not l[2]):
+                            pass  # the original field (of the matched leaf, or a helper's own &str parameter mapped back by deep_origins)
+                        elif l[0] == "upvar-of-closure":
+                            pass
+                        else:
+                            why.append(fmt_leaves({l}))
+                    inst.sites.append("%s @ %s: Expr::%s.field <- %s" % (short, sp(B, i), v.get("var"), fmt_leaves(L)))
+                    if why:
+                        bad.append(("leaf-field:%s" % v.get("var"), "%s builds Expr::%s whose field name comes from %s, not from parse_event_field / the original field" % (short, v.get("var"), "; ".join(sorted(set(why)))), None))
+            # (2) the part after '.' is used only when the part before it EQUALS the target event type
+            for c in B.find_calls(r"utils::parse_event_field$"):
+                if c.cleanup:
+                    continue
+                n_pef += 1
+                dl = c.dest[0]
+                eqs = []
+                for e in B.find_calls(r"PartialEq.*::eq$|PartialEq.*::ne$"):
+                    oa, ob = B.origins(e.args[0]), B.origins(e.args[1])
+
+                    def is_et(Ls):
+                        return any(l[0] == "call" and l[2] == c.bb and ".0" in [p_ for p_ in l[3]][-1:] + [p_ for p_ in l[3]] and [p_ for p_ in l[3] if p_ in (".0", ".1")][-1:] == [".0"] for l in Ls)
+
+                    def is_param(Ls):
+                        return any(l[0] in ("param", "upvar") and not (l[2] and l[2][-1] == ".field") for l in Ls)
+                    if (is_et(oa) and is_param(ob)) or (is_et(ob) and is_param(oa)):
+                        eqs.append(e)
+                te = []
+                for e in eqs:
+                    te += bool_result_edge(B, e, not e.nname.endswith("::ne"))
+                # uses of the field-name part: statements moving/copying <dest>@Some.0.1
+                for i in sorted(B.live_blocks()):
+                    for st in B.blocks[i]["s"]:
+                        v = st.get("v")
+                        if not v or v.get("r") != "use":
+                            continue
+                        pl = v["o"].get("m") or v["o"].get("c")
+                        if pl and pl[0] == dl and [p_ for p_ in pl[1:] if p_ in (".0", ".1")][-1:] == [".1"]:
+                            tgt = st["a"][0]
+                            if not eqs:
+                                bad.append(("addressed-by-equality", "%s uses the part after '.' but never compares the part before it (%s) with the target event type by equality" % (short, sp(B, c.bb)), None))
+                                continue
+                            # where is the moved field name consumed?
+                            for j in sorted(B.live_blocks()):
+                                for st2 in B.blocks[j]["s"]:
+                                    v2 = st2.get("v")
+                                    if v2 and v2.get("r") in ("use", "agg") and j != i or (v2 and j == i and st2 is not st):
+                                        ops = [v2["o"]] if v2.get("r") == "use" else (v2.get("o") or []) if v2.get("r") == "agg" else []
+                                        for o_ in ops:
+                                            p2 = (o_.get("m") or o_.get("c")) if isinstance(o_, dict) else None
+                                            if p2 and p2[0] == tgt and not any(B.dominates_edge(e_, j) for e_ in te):
+                                                bad.append(("field-name-without-equality", "%s uses the part after '.' (%s) on a path where the part before it was not found equal to the target event type" % (short, sp(B, j)), None))
+        inst.sites.append("family: %s" % [k[len(mod) + 2:] for k in fam])
+        if n_leaf < 2 or n_pef < 1:
+            raise AnchorMissing("leaf rewrites in transform_where_clause_for_event_type (leaves built %d, parse_event_field calls %d; confirmed 4 / 2)" % (n_leaf, n_pef))
+        return bad
+    ctx.run("C15.d", "K7 PROV + K8 GUARD", "sequence::utils::transform_where_clause_for_event_type", "a WHERE leaf is addressed to an event type by whole-name equality only", d)
